@@ -1,52 +1,10 @@
 package props
 
-import (
-	"os"
-	"strconv"
-)
+import "verif/harness/tok"
 
-// tokenAlphabet is the shared token alphabet of the byte-level properties
-// (C10, C15, C20): every keyword and punctuation literal of the grammar,
-// keyword-prefixed identifiers, identifiers with / _ digits, numbers, strings
-// (incl. pointer-looking, escaped, unterminated), case-flipped keywords.
-var tokenAlphabet = []string{
-	"and", "or", "not", "in", "is", "empty", "contains", "matches", "any", "all", "as",
-	"(", ")", "{", "}", "[", "]", ",", ".", "_", "-", "==", "!=",
-	"a", "b1", "inx", "nota", "orb", "anyx", "a/b", "a_b",
-	"0", "1", "01", "1.5", "-1", "1.",
-	`"s"`, "`s`", `""`, `"/p"`, `"/p~1q"`, `"\q"`, `"u`, "`u",
-	"AND", "Not",
-}
+// tokenAlphabet is the shared token alphabet of the byte-level properties.
+var tokenAlphabet = tok.Alphabet
 
-// shardOf returns (shard, shards) from the environment (default 0 of 1).
-func shardOf() (int, int) {
-	s, _ := strconv.Atoi(os.Getenv("VERIF_SHARD"))
-	n, _ := strconv.Atoi(os.Getenv("VERIF_SHARDS"))
-	if n <= 0 {
-		return 0, 1
-	}
-	return s, n
-}
-
-// forEachTokenSeq calls f with every sequence of 1..maxLen tokens joined with
-// sep, restricted to this process' shard (by index of the first token).
 func forEachTokenSeq(maxLen int, sep string, f func(text string, ntok int)) {
-	shard, shards := shardOf()
-	var rec func(prefix string, depth int)
-	rec = func(prefix string, depth int) {
-		for i, tk := range tokenAlphabet {
-			if depth == 0 && i%shards != shard {
-				continue
-			}
-			s := tk
-			if depth > 0 {
-				s = prefix + sep + tk
-			}
-			f(s, depth+1)
-			if depth+1 < maxLen {
-				rec(s, depth+1)
-			}
-		}
-	}
-	rec("", 0)
+	tok.ForEachSeq(maxLen, sep, f)
 }
